@@ -307,6 +307,13 @@ func parsePossibilityOperator(input *input, version *VersionRelation) error {
 	leader := input.Next() /* may be 0 */
 
 	if leader == '=' {
+		switch input.Peek() {
+		case '=', '<', '>':
+			return fmt.Errorf(
+				"Unknown Operator in Possibility Version modifier: =%c",
+				input.Peek(),
+			)
+		}
 		/* Great, good enough. */
 		version.Operator = "="
 		return nil
@@ -343,6 +350,13 @@ func parsePossibilityNumber(input *input, version *VersionRelation) error {
 		case 0:
 			return errors.New("Oh no. Reached EOF before Number finished")
 		case ')':
+			return nil
+		case ' ', '\t', '\n', '\r':
+			/* whitespace after the number, not part of it */
+			eatWhitespace(input)
+			if input.Peek() != ')' {
+				return errors.New("Trailing garbage in a Version relation")
+			}
 			return nil
 		}
 		version.Number += string([]byte{input.Next()})
